@@ -49,3 +49,21 @@ N("c06-n-setter-truthy", "C06", A, DS, "        if self._timeout_handle is not N
 M("c06-rearm-only-if-timer-pending", "C06", A, "CancelScope.deadline@setter",
   "            self._timeout_handle = None\n\n        if self._active and not self._cancel_called:\n            self._timeout()",
   "            self._timeout_handle = None\n            if self._active and not self._cancel_called:\n                self._timeout()", ["R06-c"])
+
+# effective deadline: the early-return form delivered as neutral refactor C06/n3, and its broken siblings
+_EFF_OLD = ("        deadline = math.inf\n        while cancel_scope:\n            deadline = min(deadline, cancel_scope.deadline)\n            if cancel_scope._cancel_called:\n"
+            "                deadline = -math.inf\n                break\n            elif cancel_scope.shield:\n                break\n            else:\n"
+            "                cancel_scope = cancel_scope._parent_scope\n\n        return deadline\n")
+N("c06-n-effective-early-returns", "C06", A, "AsyncIOBackend.current_effective_deadline", _EFF_OLD,
+  "        earliest = math.inf\n        scope = cancel_scope\n        while scope is not None:\n            if scope._cancel_called:\n                return -math.inf\n\n"
+  "            earliest = min(earliest, scope.deadline)\n            if scope.shield:\n                return earliest\n\n            scope = scope._parent_scope\n\n        return earliest\n")
+M("c06-effective-early-returns-shield-before-min", "C06", A, "AsyncIOBackend.current_effective_deadline", _EFF_OLD,
+  "        earliest = math.inf\n        scope = cancel_scope\n        while scope is not None:\n            if scope._cancel_called:\n                return -math.inf\n\n"
+  "            if scope.shield:\n                return earliest\n\n            earliest = min(earliest, scope.deadline)\n            scope = scope._parent_scope\n\n        return earliest\n", ["R06-e"])
+M("c06-effective-early-returns-cancelled-returns-accumulated", "C06", A, "AsyncIOBackend.current_effective_deadline", _EFF_OLD,
+  "        earliest = math.inf\n        scope = cancel_scope\n        while scope is not None:\n            earliest = min(earliest, scope.deadline)\n            if scope._cancel_called:\n                return earliest\n\n"
+  "            if scope.shield:\n                return earliest\n\n            scope = scope._parent_scope\n\n        return earliest\n", ["R06-e"])
+M("c06-effective-neginf-at-shield", "C06", A, "AsyncIOBackend.current_effective_deadline", "            elif cancel_scope.shield:\n                break\n",
+  "            elif cancel_scope.shield:\n                deadline = -math.inf\n                break\n", ["R06-e"])
+M("c06-effective-skips-every-other-scope", "C06", A, "AsyncIOBackend.current_effective_deadline", "                cancel_scope = cancel_scope._parent_scope\n",
+  "                cancel_scope = cancel_scope._parent_scope\n                if cancel_scope is not None and not cancel_scope.shield and not cancel_scope._cancel_called:\n                    cancel_scope = cancel_scope._parent_scope\n", ["R06-e"])
